@@ -196,6 +196,9 @@ func genCase(r *rand.Rand, idx, nOps int) *caseT {
 			first := sw()
 			for pi := 0; pi < nParts; pi++ {
 				p := part{Sw: (first + pi) % 2}
+				if pi == 1 && r.IntN(3) == 0 {
+					p.Sw = first // the same swamp twice in one request
+				}
 				switch y := r.IntN(100); {
 				case y < 62:
 					p.Create, p.Overwrite = true, true
@@ -207,6 +210,18 @@ func genCase(r *rand.Rand, idx, nOps int) *caseT {
 				for _, k := range genKeys(r, 1, 2) {
 					kd := c.prefKind(r, k, func(kind) bool { return true })
 					p.KVs = append(p.KVs, kvReq{Key: k, Val: genValue(r, kd), Meta: genMeta(r)})
+				}
+				// the same key again in the same request: same value, another value, another kind
+				for r.IntN(100) < 22 && len(p.KVs) < 5 {
+					again := pick(r, p.KVs)
+					switch r.IntN(3) {
+					case 0: // identical item
+					case 1:
+						again.Val = genValue(r, again.Val.K)
+					default:
+						again.Val, again.Meta = genValue(r, c.prefKind(r, again.Key, func(kind) bool { return true })), genMeta(r)
+					}
+					p.KVs = append(p.KVs, again)
 				}
 				o.Parts = append(o.Parts, p)
 			}
@@ -336,10 +351,8 @@ func sliceKeys(r *rand.Rand, c *caseT) []string {
 		return pick(r, keyNames[:])
 	}
 	ks := []string{one()}
-	if r.IntN(5) == 0 {
-		if k2 := one(); k2 != ks[0] {
-			ks = append(ks, k2)
-		}
+	if r.IntN(4) == 0 {
+		ks = append(ks, one()) // may name the same key again
 	}
 	return ks
 }
